@@ -7,7 +7,7 @@ the RNG spy and (b) the RNG stub feeding hostile uniform numbers. Oracles:
   product     |norm * weight_sum - 1| <= 1e-12                      [icontract post-condition]
   cdf         |F(10^log_e_nu) - u| <= 1e-9 with F evaluated in 50-digit decimal
               (log-uniform for index 1), or the returned log-energy within 1e-12 of the exact
-              image (representability for narrow bounds); 0 < |1-p| < 1e-3 observed only
+              image (representability for narrow bounds), widened by 1e-14/|1-p| near p = 1
   monotone    log_e_nu non-decreasing in u
   no-raise    no exception for any valid (index, bounds, N)
 """
@@ -138,7 +138,7 @@ def run(ctx):
             # monotone in u
             o = np.argsort(u, kind="stable")
             ctx.count("monotone", le.size - 1)
-            if np.any(np.diff(le[o]) < 0) and not ill:
+            if np.any(np.diff(le[o]) < (-1e-13 / abs(1 - p) if ill else 0)):
                 j = int(np.flatnonzero(np.diff(le[o]) < 0)[0])
                 ctx.violation("monotone", f"power law index={p!r} bounds=({lo!r},{hi!r}): log_e_nu decreases from {le[o][j]!r} to {le[o][j+1]!r} as u rises from {u[o][j]!r} to {u[o][j+1]!r}", wit)
             # exact CDF
@@ -147,13 +147,15 @@ def run(ctx):
                 r = abs(float(F - D(float(ui))))
                 if ill:
                     nobs_ill += 1
-                    continue
                 ctx.count("cdf")
                 if not r <= 1e-9:
-                    # representability: accept if some log-energy within 1e-12 of the returned
-                    # double is the image (narrow bounds make one ulp of log E worth > 1e-9 in F)
-                    Fm = float(cdf_decimal(max(lo, li - 1e-12), p, lo, hi))
-                    Fp = float(cdf_decimal(min(hi, li + 1e-12), p, lo, hi))
+                    # representability / conditioning: accept if some log-energy within `band` of
+                    # the returned double is the image. Narrow bounds make one ulp of log E worth
+                    # more than 1e-9 in F, and the closed form divides by 1 - index, which
+                    # amplifies rounding by 1 / |1 - index| (1e-14 / |1 - index| allowed).
+                    band = 1e-12 + (1e-14 / abs(1 - p) if p != 1 else 0.0)
+                    Fm = float(cdf_decimal(max(lo, li - band), p, lo, hi))
+                    Fp = float(cdf_decimal(min(hi, li + band), p, lo, hi))
                     if Fm - 1e-9 <= ui <= Fp + 1e-9:
                         nrepr += 1
                         r = 0.0
@@ -178,12 +180,12 @@ def run(ctx):
         except Exception as e:
             ctx.exception("raises", f"power law N={N} raised", e, {"N": N})
     ctx.track_worst("cdf_residual", worst, 1e-9)
-    ctx.observe("ill_conditioned_indices_observed_only", nobs_ill)
+    ctx.observe("ill_conditioned_index_cases_judged_with_widened_band", nobs_ill)
     ctx.observe("accepted_by_log_energy_band_1e-12", nrepr)
     ctx.count("contracts", ncontract["n"])
     for m in ("mono", "bounds", "product", "cdf", "monotone", "no-raise", "contracts"):
         ctx.require(m)
     return ctx.finish(
         rule="(index, lower, upper) from a boundary catalogue (index in {0,.5,.999,1,1.001,...,4} x 5 bounds) plus seeded random; per configuration 35 uniform numbers (14 hostile incl. 0, denormals, 1-2^-53, 1; grid; random) through the RNG stub and 40 from the real generator observed by the RNG spy; a case is one distinct (index, bounds, u)",
-        assumptions=["python decimal (50 digits) for the exact CDF", "numpy.random.uniform(0, 1+eps) never returns a value above 1 (its largest output rounds to 1.0); values are compared as min(u, 1)", "indices with 0 < |1-p| < 1e-3 are observed only (closed form ill-conditioned)"],
+        assumptions=["python decimal (50 digits) for the exact CDF", "numpy.random.uniform(0, 1+eps) never returns a value above 1 (its largest output rounds to 1.0); values are compared as min(u, 1)", "the returned log-energy may deviate from the exact image by 1e-12 + 1e-14/|1-index| (conditioning of the closed form near index 1)"],
     )
